@@ -36,7 +36,7 @@ type HarnessSpec struct {
 	NoReplay   bool           `json:"no_replay"`
 	TimeoutSec int            `json:"timeout_s"`
 	ForbidEv   []string       `json:"forbid_events"` // a path recording an event containing one of these substrings is a violation
-	Logic      string         `json:"logic"` // e.g. QF_UFBV: lets z3 pick its bit-vector tactics (only for harnesses without Int terms)
+	Logic      string         `json:"logic"`         // e.g. QF_UFBV: lets z3 pick its bit-vector tactics (only for harnesses without Int terms)
 }
 
 type Spec struct {
